@@ -28,6 +28,7 @@ FRAMES = {
     f"{G}:GHE.simulate#hybrid-body": ["self.bhe_eq", "self.dTb", "self.hp_eft", "self.loading", "self.times"],
     f"{G}:GHE.simulate#hourly-body-fresh": ["self.bhe_eq", "self.dTb", "self.hp_eft", "self.loading", "self.times"],
     f"{G}:GHE.simulate#hourly-body-after-another-simulation": ["self.bhe_eq", "self.dTb", "self.hp_eft", "self.loading", "self.times"],
+    f"{G}:GHE.simulate#hourly-body-array-loads": ["self.bhe_eq", "self.dTb", "self.hp_eft", "self.loading", "self.times"],
     f"{S}:RowWiseModifiedBisectionSearch.initialize_ghe#body": ["self.ghe", "self.borehole.H"],
 }
 for _geom in ("NEARSQUARE", "RECTANGLE", "BIRECTANGLE", "BIZONEDRECTANGLE", "BIRECTANGLECONSTRAINED", "ROWWISE"):
